@@ -189,12 +189,14 @@ class Verifier:
             raise EngineError("function %s not found in %s" % (qual, mod.path))
         ex = Exec(self, mod, qual, c)
         self.nonlinear = c.options.get("nonlinear", "uf")
+        self.float_mode = c.options.get("float_mode", "R")
         obls = ex.run()
         return ex, obls
 
     def vc_lemma(self, name):
         c = self.registry.lemmas[name]
         self.nonlinear = c.options.get("nonlinear", "uf")
+        self.float_mode = c.options.get("float_mode", "R")
         ex = LemmaExec(self, c)
         return ex, ex.run()
 
